@@ -47,6 +47,16 @@ def gen_cases(tier, seed):
                    "same_seed": True, "shortcut": rng.chance(1, 8), "env": pipeline.gen_env(rng, batch, 4, same_seed=True)}
             n += 1
         k += 1
+    for (name, tfiles, tentry) in pipeline.test_programs():
+        if len(tfiles) != 1:
+            continue
+        for r in range(2 if quick else 6):
+            rng = Rng(derive(seed, PROP, "testsrc", name, r))
+            batch = ["fault_free", "benign", "benign", "hard"][r % 4]
+            same = r % 2 == 0
+            yield {"prop": PROP, "id": "t%d" % n, "batch": batch, "kind": "testsrc", "name": name,
+                   "same_seed": same, "shortcut": r % 3 == 2, "env": pipeline.gen_env(rng, batch, 4, same_seed=same)}
+            n += 1
     try:
         import gens
     except ImportError:
@@ -81,7 +91,7 @@ def run_case(case):
     st = core.stats_of(procs, [allrules] * len(procs))
     st["hash_seeds"] = [pl["seed"] for pl in env["plans"]]
     desc = case.get("example", "") + "/" + case.get("entry", "") if case["kind"] == "corpus" else \
-        (repr(case["s"]) if case["kind"] == "string" else case["gen"].get("family", "gen"))
+        (repr(case["s"]) if case["kind"] == "string" else (case["name"] if case["kind"] == "testsrc" else case["gen"].get("family", "gen")))
     st["shape"] = core.shape_hash(case["kind"], desc, case.get("raw"), case.get("form"), case.get("gen"), case.get("shortcut"),
                                   [[(r["call"], r["pat"], r["act"].split(":")[0]) for r in pl["rules"]] for pl in env["plans"]],
                                   bool(env.get("dirty")), [bool(g) for g in env["gc"]])
@@ -135,13 +145,14 @@ def run_case(case):
     if case.get("shortcut"):
         # the shortcut prints a banner and the transpiler's message first; the program output must follow unchanged
         ok = eo.endswith(ro)
-        if not ok and (case["kind"] == "corpus" or (case["kind"] == "gen" and case["gen"].get("unordered"))):
-            ok = pipeline.canon(eo)[-len(pipeline.canon(ro)):] == pipeline.canon(ro)
+        if not ok and (case["kind"] in ("corpus", "testsrc") or (case["kind"] == "gen" and case["gen"].get("unordered"))):
+            tail = eo.split(b"\n")[-len(ro.split(b"\n")):]
+            ok = pipeline.canon(b"\n".join(tail)) == pipeline.canon(ro)
         if not ok:
             return fail("stdout-differs", "output of `execute --transpile` does not end with the output of `run`")
     elif ro != eo:
         unordered = case["kind"] == "gen" and case["gen"].get("unordered")
-        if case["kind"] == "corpus":
+        if case["kind"] in ("corpus", "testsrc"):
             env2 = copy.deepcopy(env)
             env2["plans"][0] = {"seed": "a5" * 16, "rules": []}
             r2 = pipeline.leg_run(files, entry, env2, 0)[0]
